@@ -300,7 +300,7 @@ def main():
                            "each statistical monitor has false-alarm probability <= 1e-12; at most 16 monitors + per-case looks"])
     run.require("gillespie_steps", "tauleap_steps", "tauleap_tally_observations")
     thorough = tier() == "thorough"
-    nG, nT = (1200, 800) if thorough else (90, 60)
+    nG, nT = (1500, 1000) if thorough else (360, 240)
     ev, stp = (16000, 6000) if thorough else (4000, 1500)
     cases = [{"seed": seed(), "idx": i, "engine": "gillespie", "events": ev} for i in range(nG)]
     cases += [{"seed": seed(), "idx": 100000 + i, "engine": "tauleap", "steps": stp} for i in range(nT)]
